@@ -294,6 +294,10 @@ impl StreamAlphaNode {
 
     /// Get current time in milliseconds since epoch
     fn current_time_ms() -> u64 {
+        #[cfg(rre_verif)]
+        if let Some(t) = crate::verif_hooks::clock_ms() {
+            return t;
+        }
         SystemTime::now()
             .duration_since(UNIX_EPOCH)
             .unwrap()
